@@ -693,7 +693,7 @@ fn collision_world(c: &CollisionCase) -> (WorldCase, r::Address) {
     (w, target)
 }
 
-fn run_layered(layer: u8, spec: SpecId, pre: &r::World, target: &r::Address, env: revm::primitives::Env) -> Result<revm::primitives::ResultAndState, String> {
+pub fn run_layered(layer: u8, spec: SpecId, pre: &r::World, target: &r::Address, env: revm::primitives::Env) -> Result<revm::primitives::ResultAndState, String> {
     macro_rules! go {
         ($db:expr) => {{
             let mut evm = Evm::builder().with_db($db).with_spec_id(spec).with_env(Box::new(env)).build();
@@ -791,7 +791,22 @@ pub fn c21(ctx: &mut Ctx) {
         cases,
         c21_case,
     );
-    ctx.assumptions.push("EOF creation kinds (EOFCREATE, EOF create tx) use the same create_account_checkpoint path; they are exercised for depth/safety in C26 but not in this grid".into());
+    let mut eof_cases = vec![];
+    for target in 0..8u8 {
+        for kind in 0..2u8 {
+            for layer in 0..6u8 {
+                for value in [0u8, 1] {
+                    eof_cases.push(crate::eofcheck::EofCollisionCase { target, kind, layer, value });
+                }
+            }
+        }
+    }
+    ctx.run_exhaustive(
+        "eof-collision-grid",
+        "OSAKA, exhaustive product: target pre-state {code?, nonce?, storage?}^3 x {EOF create transaction, EOFCREATE from an EOF factory} x the six database layers x endowment {0,1}; the EOFCREATE address is taken from a first run on a free address, the create-transaction address from own RLP/keccak; same oracle as the legacy grid",
+        eof_cases,
+        crate::eofcheck::c21_eof_case,
+    );
 }
 
 #[derive(Clone, Debug, Hash, Serialize, Deserialize)]
